@@ -48,6 +48,8 @@ class Scenario:
     def __init__(self, script, nevents=2, faults=(), end=10.0, stoppers=()):
         sched.install()
         SCHED.__init__()
+        self._quiet = dd.quiet(keep_main=True)      # the run thread prints tracebacks of injected faults
+        self._quiet.__enter__()
         self.script = list(script)
         self.sim = sched.ISim("thr")
         self.model = _M(self.sim, nevents, set(faults), stoppers)
@@ -128,6 +130,10 @@ class Scenario:
 
     def close(self):
         SCHED.release_all()
+        try:
+            self._quiet.__exit__(None, None, None)
+        except Exception:
+            pass
         try:
             with dd.quiet():
                 w = self.worker
